@@ -188,7 +188,7 @@ def decode_slot(slot, nbytes):
 _WS = re.compile(r"\s+")
 
 
-def canon(text):
+def canon(text, mode=None):
     """normalise decoder text for same-decoder comparisons: whitespace, case, encoding-hint pseudo prefixes, and the
     order of leading prefix tokens (decoders print prefixes in byte order; the order has no meaning). A bare `rex`
     token (REX without any bit set) is dropped."""
@@ -208,6 +208,9 @@ def canon(text):
     # `movabs r64, imm64` (B8+r) and `mov r64, simm32` (C7 /0) with the same 64-bit value are the same instruction in another
     # encoding (AsmJit's long form option selects the former); objdump prints the full 64-bit value for both
     t = re.sub(r"^movabs (r[a-z0-9]+),(0x[0-9a-f]+|1)$", r"mov \1,\2", t)
+    if mode == 32 and t in ("xchg eax,eax", "xchg ax,ax"):
+        # 32-bit mode: 87 C0 (the long form) and 90 / 66 90 do the same thing (no zero extension to lose)
+        t = "nop" if t == "xchg eax,eax" else "data16 nop"
     m = re.match(r"^((?:[a-z0-9]+ )*)(xchg|test) ([^,]+),(.+)$", t)
     if m:
         a, b = sorted([m.group(3).strip(), m.group(4).strip()])
